@@ -81,9 +81,45 @@ func c01Deadline(kind string) time.Duration {
 	return 12 * time.Second
 }
 
+// c01ConfirmTimeouts runs every case that ran out of time once more, alone, with eight times the deadline
+// (at most 8 cases): the verdict "does not terminate" must not depend on how busy the machine is.
+func c01ConfirmTimeouts(c *Ctx, cases []workerCase, res []workerResult) {
+	self, _ := os.Executable()
+	n := 0
+	for i := range res {
+		if res[i].Outcome != "timeout" || n >= 8 {
+			continue
+		}
+		n++
+		dir := filepath.Join(c.Tmp, fmt.Sprintf("wconfirm%d", n))
+		os.MkdirAll(dir, 0o755)
+		ctx, cancel := context.WithTimeout(context.Background(), 100*time.Second)
+		cmd := exec.CommandContext(ctx, self, "worker", dir)
+		cmd.Env = append(os.Environ(), "GOMEMLIMIT=1200MiB", "VERIF_WORKER_DEADLINE_S=80")
+		cmd.Stdin = strings.NewReader(fmt.Sprintf("%s\t%s\n", cases[i].Name, hex.EncodeToString(cases[i].Data)))
+		out, err := cmd.Output()
+		cancel()
+		os.RemoveAll(dir)
+		if err != nil {
+			continue // died, ran out of memory or out of time again: the first verdict stands
+		}
+		l := strings.TrimSpace(string(out))
+		parts := strings.SplitN(l, " ", 2)
+		if parts[0] == "ok" || parts[0] == "panic" {
+			d := ""
+			if len(parts) > 1 {
+				b, _ := hex.DecodeString(parts[1])
+				d = string(b)
+			}
+			res[i] = workerResult{Outcome: parts[0], Detail: d}
+		}
+	}
+}
+
 // c01RunWorkers runs the cases through n isolated workers; results of cases not run have Outcome "skipped".
 func c01RunWorkers(c *Ctx, cases []workerCase, g *c01Guard, n int) []workerResult {
 	res := make([]workerResult, len(cases))
+	defer c01ConfirmTimeouts(c, cases, res)
 	var wg sync.WaitGroup
 	for w := 0; w < n; w++ {
 		wg.Add(1)
@@ -263,7 +299,11 @@ func c01TopLines(out []byte) []string {
 }
 
 func c01CLIOne(c *Ctx, p string, deadline time.Duration) c01CLIObs {
-	o, code, _ := c01RunCLI(c, []string{p}, deadline)
+	o, code, timedOut := c01RunCLI(c, []string{p}, deadline)
+	if timedOut {
+		// once more with eight times the time: a deadline stands for non-termination, not for a busy machine
+		o, code, _ = c01RunCLI(c, []string{p}, 8*deadline)
+	}
 	t := c01TopLines(o)
 	return c01CLIObs{path: p, code: code, prefix: len(t) > 0 && strings.HasPrefix(t[0], p+": "), newline: len(o) > 0 && o[len(o)-1] == '\n', reports: len(t)}
 }
